@@ -441,40 +441,6 @@ Proof.
   intros Hn Hh. unfold clean_line. fold (norm raw). rewrite Hn, (nohash_contains J Hh). reflexivity.
 Qed.
 
-(** (ii) a comment after quote-free words, itself quote-free: cut at the comment *)
-Lemma clean_comment_noquote raw J Z :
-  norm raw = J ++ hash_pat ++ Z -> nohash J -> quote_free J -> quote_free Z -> clean_line raw = Ok J.
-Proof.
-  intros Hn Hh HqJ HqZ. unfold clean_line. fold (norm raw). rewrite Hn.
-  change ttl_inline_comment with hash_pat. rewrite (contains_app hash_pat J Z). cbn [negb].
-  unfold remove_comments.
-  assert (Hq : quote_free (J ++ hash_pat ++ Z)).
-  { apply Forall_app_intro; [exact HqJ|]. apply Forall_app_intro; [repeat constructor | exact HqZ]. }
-  rewrite (quote_free_contains _ Hq). cbn [negb].
-  rewrite (find_comment J Z Hh). rewrite slice_to_app. reflexivity.
-Qed.
-
-(** a whole-line comment stays a line that starts with '#' *)
-Lemma clean_comment_line raw Z :
-  norm raw = chr "#" :: Z -> (quote_free Z \/ contains ttl_inline_comment (chr "#" :: Z) = false) ->
-  exists r, clean_line raw = Ok (chr "#" :: r).
-Proof.
-  intros Hn Hcase. unfold clean_line. fold (norm raw). rewrite Hn.
-  destruct (contains ttl_inline_comment (chr "#" :: Z)) eqn:Ec; cbn [negb]; [|eauto].
-  destruct Hcase as [Hq | Hc]; [|discriminate].
-  unfold remove_comments.
-  assert (Hq' : quote_free (chr "#" :: Z)) by (constructor; [reflexivity | exact Hq]).
-  rewrite (quote_free_contains _ Hq'). cbn [negb].
-  unfold contains in Ec. unfold find. destruct (find_nat ttl_inline_comment (chr "#" :: Z)) as [k|] eqn:Ek; [|discriminate].
-  destruct k as [|k].
-  - exfalso. cbn [find_nat] in Ek. change (prefixb ttl_inline_comment (chr "#" :: Z)) with false in Ek.
-    destruct (find_nat ttl_inline_comment Z); discriminate.
-  - unfold slice_to, norm_idx. destruct (Z.of_nat (S k) <? 0) eqn:E; [apply Z.ltb_lt in E; lia|].
-    assert (Hpos : exists m, Z.to_nat (Z.min (Z.of_nat (S k)) (len (chr "#" :: Z))) = S m).
-    { rewrite len_cons. pose proof (len_nonneg Z). exists (Z.to_nat (Z.min (Z.of_nat (S k)) (1 + len Z)) - 1)%nat. lia. }
-    destruct Hpos as (m & ->). cbn [firstn]. eauto.
-Qed.
-
 (** ** what survives cleaning: only characters of the input, and blanks *)
 
 Lemma collapse_Forall (P : ascii -> Prop) : forall s, Forall P s -> Forall P (collapse_blanks s).
